@@ -230,8 +230,11 @@ def xor_instances():
         ("CHSH", np.full((2, 2), q), np.array([[0, 0], [0, 1]])),
         ("odd-cycle-like 3x3, dyadic weights", np.array([[q, e, 0], [0, e, e], [e, 0, q]]),
          np.array([[0, 1, 0], [0, 0, 1], [1, 0, 0]])),
-        ("rectangular 2x3 biased", np.array([[h, e, 0], [e, e, e]]), np.array([[0, 1, 1], [1, 0, 1]])),
-        ("3x2 with a zero row", np.array([[h, q], [0, 0], [e, e]]), np.array([[1, 0], [0, 0], [0, 1]])),
+        # rectangular games whose optimum is NOT 1 and changes under any re-ordering of the entries of D
+        ("rectangular 2x3, CHSH-like block", np.array([[e, e, q], [e, e, q]]), np.array([[0, 0, 0], [0, 1, 1]])),
+        ("rectangular 3x2, transpose of the former", np.array([[e, e], [e, e], [q, q]]), np.array([[0, 0], [0, 1], [0, 1]])),
+        ("3x2 with a zero row, biased", np.array([[q, e], [0, 0], [e, h]]), np.array([[0, 0], [0, 0], [0, 1]])),
+        ("2x3 biased", np.array([[q, e, e], [e, q, e]]), np.array([[0, 0, 0], [0, 1, 0]])),
     ]
 
 
